@@ -142,6 +142,26 @@ fn drop_violation(sig: &str, detail: String) -> ! {
 }
 
 // ---------------------------------------------------------------------------
+// The global queue is a dashmap; `run_explicit_merge` walks a thread's queue
+// while holding a shard lock and reaches scheduling points while doing so. No
+// other simulated thread may touch the map meanwhile (it would block on a real
+// lock while holding the token), so map operations wait for a running merge.
+
+static MERGING: std::sync::atomic::AtomicBool = std::sync::atomic::AtomicBool::new(false);
+
+fn wait_no_merge() {
+    sched::wait_until(sites::H_INBOX, &mut || !MERGING.load(Ordering::SeqCst));
+}
+
+fn locked_merge() -> usize {
+    wait_no_merge();
+    MERGING.store(true, Ordering::SeqCst);
+    let n = steel_rc::QueueHandle::run_explicit_merge();
+    MERGING.store(false, Ordering::SeqCst);
+    n
+}
+
+// ---------------------------------------------------------------------------
 // hooks
 
 fn hook_access(site: u32, addr: usize) {
@@ -163,7 +183,14 @@ fn hook_access(site: u32, addr: usize) {
     if site == s::DEREF || site == s::DROP_CONTENTS {
         return;
     }
+    if site == s::ENQUEUE_TID {
+        // about to touch the queue map
+        wait_no_merge();
+    }
     sched::yield_point_ex(site, 0, true);
+    if site == s::ENQUEUE_TID {
+        wait_no_merge();
+    }
 }
 
 fn hook_dealloc(addr: usize) -> bool {
@@ -181,6 +208,8 @@ fn hook_prepare() {
 }
 fn hook_begin() {
     sched::thread_begin();
+    // with_explicit_merge registers the thread (a map operation) right away
+    wait_no_merge();
 }
 fn hook_end() {
     sched::thread_end(true);
@@ -475,7 +504,7 @@ fn run_ops(t: usize, ops: &[Value], shared: &'static Shared, held: &mut Vec<H>, 
                 }
             }
             "merge" => {
-                let n = steel_rc::QueueHandle::run_explicit_merge();
+                let n = locked_merge();
                 if n > 0 {
                     report::probe_n("explicit-merge.objects", n as u64);
                 }
@@ -557,6 +586,7 @@ impl Scenario for C05 {
         if main_kind == "main-registered" {
             steel_rc::register_thread();
         }
+        MERGING.store(false, Ordering::SeqCst);
         let spawn_at: Vec<usize> = workload["spawn_at"]
             .as_array()
             .map(|a| a.iter().map(|x| x.as_u64().unwrap_or(0) as usize).collect())
@@ -580,6 +610,8 @@ impl Scenario for C05 {
                         model(|m| {
                             m.exit_step.insert(id, n);
                         });
+                        // the exit merge starts with a map operation
+                        wait_no_merge();
                     };
                     let before = sched::with_inner(|i| i.nthreads).unwrap_or(0);
                     if kind == "explicit" {
@@ -588,10 +620,12 @@ impl Scenario for C05 {
                         let reg = kind == "raw-registered";
                         sched::spawn(true, move || {
                             if reg {
+                                wait_no_merge();
                                 steel_rc::register_thread();
                             }
                             body();
-                            steel_rc::QueueHandle::run_explicit_merge();
+                            locked_merge();
+                            wait_no_merge();
                             steel_rc::QueueHandle::finish_thread_merge();
                         });
                     }
@@ -617,7 +651,7 @@ impl Scenario for C05 {
             }
         }
         drop_all(0, &mut held);
-        steel_rc::QueueHandle::run_explicit_merge();
+        locked_merge();
         // I5: everything destroyed exactly once
         let (mut nontrivial, mut leak): (bool, Option<(String, String)>) = (false, None);
         model(|m| {
